@@ -189,7 +189,36 @@ func checkC02(c *Ctx) {
 				}
 			}
 		}()
+		hotFile := ""
 		for round := 0; round < rounds; round++ {
+			if round > 0 && chance(r, 35) {
+				// a device is plugged in: one Spec file is written again with one more device,
+				// everything else in it unchanged, and the cache is refreshed. Devices old and
+				// new of that file are one file's devices (its Spec-level edits come once)
+				var cands []*PFile
+				for _, f := range p.Files {
+					if f.Kind == "valid" && f.specNamed() && f.Spec != nil && len(f.Spec.Devices) > 0 {
+						cands = append(cands, f)
+					}
+				}
+				if len(cands) > 0 {
+					f := cands[r.Intn(len(cands))]
+					n := len(f.Spec.Devices)
+					f.Spec.Devices = append(f.Spec.Devices, specs.Device{Name: fmt.Sprintf("hot%d", round),
+						ContainerEdits: genEdits(r, &SpecGen{Plain: true, Marker: f.Marker}, fmt.Sprintf("%s-D%d", f.Marker, n), true)})
+					f.Content = specBytes(f.Spec, f.Enc)
+					p.writeFile(f)
+					if err := cache.Refresh(); err != nil && len(res.ErrPaths) == 0 && len(res.Conflicts) == 0 {
+						cs.Violation("refresh-failed", nil, fmt.Sprintf("Refresh() after adding a device to %s fails: %v", p.path(f), err), map[string]any{"population": p.Describe()})
+						return
+					}
+					res = p.Resolve()
+					devs = sortedDevs(res)
+					c.Count("devices_plugged_in_between_injections", 1)
+					// the next request takes old and new devices of that file together
+					hotFile = p.path(f)
+				}
+			}
 			k := 1 + r.Intn(len(devs))
 			if k > 6 {
 				k = 6
@@ -198,6 +227,28 @@ func checkC02(c *Ctx) {
 			var req []string
 			for _, i := range perm {
 				req = append(req, devs[i])
+			}
+			if hotFile != "" {
+				// every device the cache resolves to the rewritten file, in shuffled order, first
+				var hot []string
+				inReq := map[string]bool{}
+				for _, q := range devs {
+					if res.Devices[q].Path == hotFile {
+						hot = append(hot, q)
+						inReq[q] = true
+					}
+				}
+				r.Shuffle(len(hot), func(i, j int) { hot[i], hot[j] = hot[j], hot[i] })
+				for _, q := range req {
+					if !inReq[q] {
+						hot = append(hot, q)
+					}
+				}
+				req, hotFile = hot, ""
+				if len(req) > 8 {
+					req = req[:8]
+				}
+				c.Count("requests_mixing_old_and_new_devices_of_a_rewritten_file", 1)
 			}
 			initial := genOCI(r)
 			// expected combined edits
